@@ -570,6 +570,18 @@ func runC05Placement(c *harness.Case) {
 	point := points[r.Intn(len(points))]
 	k := r.Intn(4)
 	cache := c05Cache[r.Intn(len(c05Cache))]
+	if cache > 0 && cache <= 8 {
+		// a small cache: enough writes during the hold to wrap the ring over what the held watcher has just read
+		k = r.Intn(cache + 4)
+	}
+	// every third placement case is laid out exactly: a cache of 2, 3, 4 or 8 slots that has wrapped, the watcher starts
+	// among the events written since the last wrap (what it has to catch up on is one contiguous piece of the ring's
+	// array) and is held right after reading the cache while a full lap of further events is written over those slots
+	wrapOver := r.Intn(3) == 0
+	if wrapOver {
+		cache = []int{2, 3, 4, 8}[r.Intn(4)]
+		point = "afterCacheRead"
+	}
 	var armed int32
 	reached := make(chan struct{}, 1)
 	release := make(chan struct{})
@@ -589,6 +601,11 @@ func runC05Placement(c *harness.Case) {
 	for i := 0; i < 3+r.Intn(20); i++ {
 		rg.write(r, true)
 	}
+	if wrapOver {
+		for i := 0; i < 200 && (len(rg.truth.sorted()) <= cache || len(rg.truth.sorted())%cache == 0); i++ {
+			rg.write(r, true)
+		}
+	}
 	all := rg.truth.sorted()
 	win := cachedWindow(all, cache)
 	window := [2]uint64{0, 0}
@@ -597,6 +614,12 @@ func runC05Placement(c *harness.Case) {
 	}
 	sk := []string{"inside", "newest", "newest+1", "oldest", "zero"}[r.Intn(5)]
 	S := chooseStart(r, sk, win, rg.n.Committed())
+	if wrapOver {
+		if sinceWrap := len(all) % cache; sinceWrap > 0 && len(win) >= sinceWrap {
+			sk = "inside"
+			S = win[len(win)-1-r.Intn(sinceWrap)].Rev
+		}
+	}
 	P := c05Prefixes[r.Intn(len(c05Prefixes))]
 	var w *wwatcher
 	placed := fmt.Sprintf("%s+%d", point, k)
@@ -614,6 +637,12 @@ func runC05Placement(c *harness.Case) {
 		case <-reached:
 			for i := 0; i < k; i++ {
 				rg.write(r, true)
+			}
+			if wrapOver {
+				for i, n0 := 0, len(rg.truth.sorted()); i < 200 && len(rg.truth.sorted()) < n0+cache; i++ {
+					rg.write(r, true)
+				}
+				c.Stat("catch_ups_read_and_then_overwritten_by_a_full_lap_of_the_ring", 1)
 			}
 			// let cache insert and broadcast of those writes happen too
 			time.Sleep(2 * time.Millisecond)
